@@ -148,13 +148,17 @@ def _limits():
     resource.setrlimit(resource.RLIMIT_AS, (4 << 30, 4 << 30))
 
 
-def run_c14(binary, root, lines, timeout):
+def run_c14(binary, root, lines, timeout, case_limit_ms=None):
     """Run one batch. Returns (result lines produced so far, status): status 'ok' when every line was
-    answered; 'hang' when the harness watchdog stopped at a case that ran > 10 s (last line is HANG);
-    'timeout' / 'died:<rc>' when the process was killed or crashed (the next unanswered line is the culprit)."""
+    answered; 'hang' when the harness watchdog stopped at a case that ran longer than the per-case limit
+    (last line is HANG); 'timeout' / 'died:<rc>' when the process was killed or crashed (the next
+    unanswered line is the culprit)."""
+    env = dict(os.environ)
+    if case_limit_ms:
+        env["C14_CASE_LIMIT_MS"] = str(case_limit_ms)
     try:
         p = subprocess.run([binary, "run", "c14", root], input="\n".join(lines) + "\n", capture_output=True,
-                           text=True, timeout=timeout, preexec_fn=_limits)
+                           text=True, timeout=timeout, preexec_fn=_limits, env=env)
         rc, so, se = p.returncode, p.stdout, p.stderr
     except subprocess.TimeoutExpired as e:
         so = e.stdout.decode() if isinstance(e.stdout, bytes) else (e.stdout or "")
@@ -169,32 +173,67 @@ def run_c14(binary, root, lines, timeout):
     return out, "died:%s %s" % (rc, se[-300:])
 
 
+ABNORMAL = ("HANG", "DIED")
+SLOW_LIMIT_MS = 300000      # second opinion for a case that hit the 10 s watchdog: alone, 30x the limit
+
+
+def _confirm(binary, root, line):
+    """A case did not answer within the first (tight, load-sensitive) limit. Run it ALONE with a limit 30 times
+    larger. Only a case that fails again is a genuine hang/crash of the real code (a C14 violation); a case that
+    answers now was merely slow (machine under load) and its answer is used."""
+    parts = line.split("\t")
+    if parts[0] == "checkcli" and len(parts) >= 4:
+        parts[3] = str(SLOW_LIMIT_MS)
+        line = "\t".join(parts)
+    out, st = run_c14(binary, root, [line], timeout=SLOW_LIMIT_MS / 1000.0 + 120, case_limit_ms=SLOW_LIMIT_MS)
+    if st == "ok" and not out[0].startswith(ABNORMAL) and out[0] != "TIMEOUT":
+        return out[0], True
+    return (out[-1] if out and st == "hang" else ("HANG (process timeout)" if st == "timeout" else "DIED " + st)), False
+
+
 def run_lines(chk, binary, root, lines):
-    """Run all lines; a case on which the real code hangs (watchdog, 10 s = 3 orders of magnitude above
-    the normal few ms) or kills the process gets the result 'HANG' / 'DIED ...' — a property violation
-    for C14, not an infrastructure failure — and the run resumes after it."""
+    """Run all lines. Wall-clock limits are never allowed to decide a verdict on their own: a case that exceeds
+    the 10 s watchdog (or the 30 s child-process limit of `checkcli`, or kills the harness) is re-run alone with a
+    300 s limit; if it answers, that answer is used (counted in coverage["slow_cases_retried"]); only a case that
+    fails twice gets 'HANG' / 'DIED ...' — for C14 a property violation (cycles must not hang), with a replay.
+    An LSP drain timeout inside the harness is reported as `ERR LSP-TIMEOUT` and raises vlib.Infra."""
     res = []
     remaining = list(lines)
-    bad = 0
+    genuine = 0
+    retried = 0
     t0 = time.time()
     while remaining:
-        out, st = run_c14(binary, root, remaining, timeout=90 + len(remaining) * 0.2)
+        out, st = run_c14(binary, root, remaining, timeout=900 + len(remaining) * 2.0)
         if st == "ok":
             res += out
             break
-        bad += 1
         if st == "hang":
-            res += out            # the last one is HANG, for the culprit
-            remaining = remaining[len(out):]
+            answered = out[:-1]
         else:
             answered = out[:len(remaining) - 1]
-            res += answered + [("HANG (process timeout)" if st == "timeout" else "DIED " + st)]
-            remaining = remaining[len(answered) + 1:]
-        if bad >= 4:
-            # enough failing inputs: do not spend 10 s on each further hanging case
+        culprit = remaining[len(answered)]
+        r, ok = _confirm(binary, root, culprit)
+        retried += 1
+        if not ok:
+            genuine += 1
+        res += answered + [r]
+        remaining = remaining[len(answered) + 1:]
+        if retried > 40:
+            raise vlib.Infra("c14 harness: more than 40 cases exceeded the 10 s per-case limit (machine overloaded?); last: %r" % culprit[:200])
+        if genuine >= 4:
+            # enough failing inputs: do not spend minutes on each further hanging case
             res += ["SKIPPED"] * len(remaining)
             break
-    vlib.log("[c14] harness: %d lines in %.1fs, %d abnormal" % (len(lines), time.time() - t0, bad))
+    # the child-process limit of `checkcli`
+    for i, (l, r) in enumerate(zip(lines, res)):
+        if l.startswith("checkcli\t") and r == "TIMEOUT":
+            res[i], ok = _confirm(binary, root, l)
+            retried += 1
+    for r in res:
+        if r.startswith("ERR LSP-TIMEOUT"):
+            raise vlib.Infra("the in-process language server did not deliver its notifications within 120 s (machine overloaded?)")
+    chk.coverage["slow_cases_retried"] = chk.coverage.get("slow_cases_retried", 0) + retried
+    vlib.log("[c14] harness: %d lines in %.1fs, %d re-run alone after a limit, %d confirmed abnormal" % (len(lines), time.time() - t0, retried, genuine))
     return res
 
 
@@ -1195,7 +1234,7 @@ def replay_witness(binary, scratch, w):
         os.makedirs(os.path.dirname(p), exist_ok=True)
         open(p, "w").write("# F %s\n%s" % (rp, text))
     lines = [c.replace("{root}", root) for c in w["cmds"]]
-    out, st = run_c14(binary, root, lines, timeout=120)
+    out, st = run_c14(binary, root, lines, timeout=900, case_limit_ms=SLOW_LIMIT_MS)
     shutil.rmtree(root, ignore_errors=True)
     return [o.replace(root + "/", "") for o in out] if out is not None else [st]
 
@@ -1333,6 +1372,10 @@ def run(chk):
         "NOT covered: backend/ir/codegen.rs add_module/try_generate_multi_file_nested and backend/project.rs generate_nested (the generated src/ tree is not observed); module-name collisions of the `_` join (a_b vs a/b)",
     ]
     res = chk.proof_stage("C14", allow_axioms=(), rs2v_units=None)
+    for b in res["broken"]:
+        if b.get("what") == "proof" and not b.get("file"):
+            # make was killed / timed out / could not start: says nothing about the proofs
+            raise vlib.Infra("coqbuild C14/Props.vo failed without a Coq error (timeout or killed under load?): " + str(b.get("message"))[-400:])
     binary = vlib.build_harness("debug")
     ok, log = vlib.coq_build(["C14/Model.vo"])
     if not ok and "Error" not in log:
